@@ -87,6 +87,12 @@ def main():
     out["caught_with_failing_input"] = [k for k in caught if any("no-failing-input-found" not in l and l.startswith("VIOLATION") for l in results[k]["lines"])]
     d = os.path.join(ROOT, "seeded", f"{a.pid}-{a.variant}")
     os.makedirs(d, exist_ok=True)
+    old_fn = os.path.join(d, "meta.json")
+    if os.path.exists(old_fn):                      # a re-evaluation after strengthening keeps what the first pass found
+        old = json.load(open(old_fn))
+        out["first_pass_caught_by"] = old.get("first_pass_caught_by", old.get("caught_by", []))
+        if "verified" not in out and "verified" in old:
+            out["verified"] = old["verified"]
     shutil.copy(patch, os.path.join(d, "patch.diff")); shutil.copy(demo, os.path.join(d, "demo.py"))
     json.dump(out, open(os.path.join(d, "meta.json"), "w"), indent=1)
     print("caught_by:", caught)
